@@ -55,8 +55,12 @@ def shard_equiv(args):
     for single, units in ((True, (1,)), (False, (1, 2)), (False, (1, 255))):
         for ign in (False, True):
             cfg = scenario.Cfg(single, units, False, ign)
+            if framing == 'tls' and not single:
+                continue
             for n in range(1, (depth if units != (1, 255) else min(depth, 2)) + 1):
                 for seq in itertools.product(TOK_A, repeat=n):
+                    if framing == 'tls' and 'UA' in seq:
+                        continue
                     k += 1
                     if k % parts != part:
                         continue
@@ -318,9 +322,9 @@ def shard(args):
 def run(tier, seed):
     depth = 3 if tier == 'quick' else 4
     parts = 4 if tier == 'quick' else 8
-    shards = [('equiv', fr, depth, k, parts) for fr in ('tcp', 'rtu', 'ascii', 'binary') for k in range(parts)]
+    shards = [('equiv', fr, depth, k, parts) for fr in ('tcp', 'rtu', 'ascii', 'binary', 'tls') for k in range(parts)]
     nconn = 2 if tier == 'quick' else 3
-    shards += [('iso', f, fr, nconn) for f, (kd, frs) in servers.FRONTS.items() for fr in frs]
+    shards += [('iso', f, fr, nconn) for f, (kd, frs) in servers.FRONTS.items() for fr in frs if fr != 'tls']
     bound = 2 if tier == 'quick' else 3
     shards += [('thr', nme, bound) for nme in THREAD_SCRIPTS]
     acc = par.run_shards(shard, shards)
